@@ -410,9 +410,13 @@ class Run:
         shutil.copytree(os.path.join(VERIF, "harness"), self.crate)
         shutil.copy(self.gen_rs, os.path.join(self.crate, "src", "gen.rs"))
         shutil.copy(os.path.join(REPO, "Cargo.lock"), os.path.join(self.crate, "Cargo.lock"))
+        # private snapshot of the memchr contract model as well
+        mm = os.path.join(self.dir, "memchr-model")
+        shutil.copytree(os.path.join(VERIF, "memchr-model"), mm, ignore=shutil.ignore_patterns("target", "Cargo.lock"))
+        ct = open(os.path.join(self.crate, "Cargo.toml")).read().replace('path = "/verif/memchr-model"', 'path = "%s"' % mm)
         if REPO != "/repo":
-            ct = open(os.path.join(self.crate, "Cargo.toml")).read().replace('path = "/repo"', 'path = "%s"' % REPO)
-            open(os.path.join(self.crate, "Cargo.toml"), "w").write(ct)
+            ct = ct.replace('path = "/repo"', 'path = "%s"' % REPO)
+        open(os.path.join(self.crate, "Cargo.toml"), "w").write(ct)
         with open(os.path.join(self.crate, "src", "inst.rs"), "w") as f:
             f.write("// @generated by check.py\n#![allow(unused)]\nuse crate::{gen, templates as t, Case};\n")
             for h in harnesses:
